@@ -1,7 +1,7 @@
 #!/usr/bin/env python3
 """C14 — crash points: the packer is killed immediately before every output-file system call (every prefix of the
 sequence of writes/truncates); the leftover file must be rejected by every reader or be the complete image."""
-import os, sys, json, shutil, tempfile
+import os, sys, json, shutil, tempfile, hashlib
 sys.path.insert(0, os.path.dirname(os.path.dirname(os.path.abspath(__file__))))
 from vlib.common import *
 from vlib import build, treegen, sqfsck, packcheck, envrun, scenarios, tarmk, tarcases
@@ -29,6 +29,12 @@ def scenarios_for(tier):
     # an output file that already exists and holds a larger valid image (-f): stale bytes behind the crash point must not complete an image
     S.append(("gensquashfs", "overwrite-larger-image", small, dict(comp="gzip", bs=4096, preexisting=1)))
     S.append(("tar2sqfs", "overwrite-larger-image", small, dict(comp="gzip", bs=4096, preexisting=1)))
+    # the packer truncates the output when a file just written duplicates earlier blocks (also overlapping its own start): the final image must still be the input
+    X, Y = content_pattern("X-incompressible", B), content_pattern("Y-incompressible", B)
+    dd = [E(b"a1", "file", content=X), E(b"a2", "file", content=X * 3), E(b"a3", "file", content=X * 2 + b"tail"), E(b"b1", "file", content=X + Y),
+          E(b"b2", "file", content=(X + Y) * 2 + X), E(b"b3", "file", content=X + Y), E(b"c", "file", content=Y * 2 + b"c" * 50), E(b"d", "file", content=X * 5)]
+    S.append(("gensquashfs", "dedup-truncate", dd, dict(comp="gzip", bs=B)))
+    S.append(("tar2sqfs", "dedup-truncate", dd, dict(comp="lz4", bs=B)))
     if tier == "thorough":
         # every entry template of the C01 generator on its own, both tools
         for tname, ents in treegen.templates(4096):
@@ -155,6 +161,12 @@ def main():
                 cr.violation("C14|baseline-undecodable", "%s: %s" % (name, err))
                 continue
             full_tree = sqfsck.canon_tree(full)
+            # "the complete, correct image": the reference itself must hold exactly the input files with their contents
+            bad = [e["path"] for e in spec if e["type"] == "file" and (e["path"] not in full_tree or full_tree[e["path"]].get("sha") != hashlib.sha256(e["content"]).hexdigest())]
+            extra = sorted(set(full_tree) - set(treegen.expected_tree(spec)))
+            if bad or extra:
+                cr.violation("C14|final-image-not-the-input|" + tool, "scenario %s (%s, cfg %s): the image of the undisturbed run is accepted but is not the input: files with wrong/missing content %r, unexpected paths %r" % (
+                    name, tool, cfg, bad[:5], extra[:5]), files={"leftover.sqfs": open(img0, "rb").read(), "case.json": json.dumps(dict(tool=tool, scenario=name, cfg=cfg, k=N + 1, N=N, argv=argv[1:]))})
             kinds = sorted(set(l[0] for l in log0 if l[6] and l[0] in ("write", "pwrite", "trunc")))
             pts = pmap(run_point, [(si, k, argv, stdin, wd, pre) for k in range(1, N + 2)])
             outcomes = {}
